@@ -192,7 +192,7 @@ def jobs(tier):
     for code in (S301.REAL32, S301.REAL64):
         out.append(dict(func="real", params=dict(code=code)))
         out.append(dict(func="real_decode", params=dict(code=code)))
-    top = 8 if tier == "quick" else 16
+    top = 8 if tier == "quick" else 12
     for code in (S301.VISIBLE_STRING, S301.UNICODE_STRING):
         for n in range(0, top + 1):
             out.append(dict(func="text", params=dict(code=code, n=n)))
@@ -212,7 +212,7 @@ META = dict(
                       "byte patterns of the exact length; wrong lengths 0..9; REAL: every non-NaN double / every "
                       "non-NaN bit pattern; text: every string of length 0..8 (ASCII 0..127 resp. BMP without "
                       "surrogates, last char not NUL)",
-                thorough="as quick, text lengths 0..16"),
+                thorough="as quick, text lengths 0..12"),
     outside_bounds=["|v| > 2^100", "NaN payloads", "float inputs for integer types", "BOOLEAN values other than "
                     "0/1/True/False", "strings with trailing NUL (codec strips them by design)",
                     "strings longer than the bound", "non-BMP characters / lone surrogates"],
